@@ -133,6 +133,28 @@ pub fn c03(out: &mut dyn Write, tier: &str, rng: &mut Rng, st: &mut Stats) {
         writeln!(out, "C03|bin|{}|{}|{}|{}|{};{}", op, show(&a), show(&b), show(&r), show(&a), show(&b)).unwrap();
         st.hit("op.big");
     }
+    // pairs of different diagrams with the same 64-bit hash (computed, see util::colliding): an operation that
+    // takes a hash for an identity (a memo keyed by hash, a reduction test on hashes) answers for the wrong one
+    if hash_model_ok() {
+        let nh = if exhaustive { 6000 } else { 400 };
+        let x0 = env.var(0);
+        for i in 0..nh {
+            let a = from_tt(1 + rng.below(254), &[1, 4, 9]);
+            if a.is_const() { continue; }
+            let (_, b) = match colliding(&a, (i % 3) as u64, 2 + rng.below(6) as usize) { Some(p) => p, None => { st.hit("collision.none"); continue; } };
+            st.hit("collision.pair");
+            let (a, b) = if i % 2 == 0 { (crate::env::intern(&env, &a), crate::env::intern(&env, &b)) } else { (a, b) };
+            for (x, y) in [(&a, &b), (&b, &a)] {
+                let r = env.ite(Rc::clone(&x0), Rc::clone(x), Rc::clone(y));
+                writeln!(out, "C03|ite|{}|{}|{}|{}|{};{};{}", show(&x0), show(x), show(y), show(&r), show(&x0), show(x), show(y)).unwrap();
+                let op = *rng.pick(&BIN_OPS);
+                let r = bin(&env, op, Rc::clone(x), Rc::clone(y));
+                writeln!(out, "C03|bin|{}|{}|{}|{}|{};{}", op, show(x), show(y), show(&r), show(x), show(y)).unwrap();
+                let r = env.not(Rc::clone(x));
+                writeln!(out, "C03|not|{}|{}|{}", show(x), show(&r), show(x)).unwrap();
+            }
+        }
+    } else { st.hit("collision.hash-model-differs"); }
     for s in [0usize, 1, 2, 7, 100, 65535] {
         let r = env.var(s);
         writeln!(out, "C03|var|{}|{}|", s, show(&r)).unwrap();
